@@ -1419,6 +1419,15 @@ func (r *rewriter) call(x *ast.CallExpr) ast.Expr {
 					}
 				}
 				return x
+			case "append":
+				for i := range x.Args {
+					x.Args[i] = r.expr(x.Args[i], mRd)
+				}
+				if len(x.Args) >= 2 {
+					// an append that fits the capacity writes into the backing array, which other slices may share
+					x.Args[0] = &ast.CallExpr{Fun: r.simrtSel("AP"), Args: []ast.Expr{x.Args[0], r.newSite("ELEM", x, "append into "+r.describe(x.Args[0])+"[]")}}
+				}
+				return x
 			case "close", "len", "cap":
 				if len(x.Args) == 1 {
 					if t := info.TypeOf(x.Args[0]); t != nil {
